@@ -72,6 +72,19 @@ chk("C05",
     "machine-checked proof in Coq (loop invariants by induction on fuel, arbitrary oracles) + translator/bit-exact correspondence",
     "DESIGN.md section 6, C05")
 
+chk("C12",
+    "Coq theorems: whenever the run loop returns (any step function, any number of iterations) the exit test is "
+    "false on the returned state, i.e. 1-beta < tol and ESS >= n_total; loop invariants are preserved; for all 16 "
+    "posterior() option combinations and every trim/resample outcome the returned samples, log-likelihoods, blobs and "
+    "log-weights are one and the same selection of pool rows (equal lengths), weights are the trimmed/uniform vector "
+    "and uniform weights sum to 1. Tie: regenerated Gen.Posterior (termination expression, per-stage indexed fields, "
+    "run tail write set) + Link; real runs over the option lattice with exit/evidence recomputed from history and all "
+    "16 combinations checked row by row and against the model's selection.",
+    "Trusted: Coq kernel/vm_compute; python translator/harness; trim_weights and systematic_resample as oracles "
+    "(C20, C06); liveness of run() not claimed.",
+    "machine-checked proof in Coq (loop exit/invariant by induction on fuel; list-indexing algebra) + translator/row-identity correspondence",
+    "DESIGN.md section 6, C12")
+
 for pid in [f"C{i:02d}" for i in range(1, 21)]:
     if pid not in CHECKS:
         NA[pid] = "check not built yet in this session (planned in DESIGN.md section 6); not claimed"
